@@ -1,5 +1,5 @@
 """C16: `Parser::list_type` (compiler/src/ast/type.rs) -- the builder of a fixed-shape list type `[A, B, ...]`.  The grammar lets the last element
-of a list type be `T...` (`list_type = "[" type? ("," type)* ("," open_ended_type)? "]"`): for every child the grammar can deliver the builder
+types be closed by `...` (`list_type = "[" (type ("," type)*)? open_ended_marker? "]"`): for every child the grammar can deliver the builder
 returns -- a type or a diagnostic -- and never reaches `unreachable!`."""
 from vlib.rules import *
 
@@ -7,18 +7,21 @@ FILE = "compiler/src/ast/type.rs"
 
 SPEC = r"""
 #[allow(non_camel_case_types)]
-pub enum Rule { type_, open_ended_type, other }
+pub enum Rule { type_, open_ended_marker, other }
 pub uninterp spec fn rule_of(n: &Node) -> Rule;
 impl Node { #[verifier::external_body] pub fn as_rule(&self) -> (r: Rule) ensures r == rule_of(self) { unimplemented!() } }
 pub uninterp spec fn parsed_type(n: Node) -> Option<TypeLayout>;
 #[verifier::external_body] pub fn parse_type_of(n: Node) -> (r: Result<TypeLayout, VErr>) ensures r is Ok <==> parsed_type(n) is Some, r is Ok ==> r->Ok_0 == parsed_type(n)->Some_0 { unimplemented!() }
 pub enum ListType { Mixed(Vec<TypeLayout>), Open(Box<TypeLayout>) }
+// Vec::remove(0) PANICS on an empty vector (R8)
+pub fn vec_remove0(v: &mut Vec<TypeLayout>) -> (r: TypeLayout) requires old(v)@.len() > 0 ensures r == old(v)@[0], final(v)@ == old(v)@.subrange(1, old(v)@.len() as int) { v.remove(0) }
 #[verifier::external_body] pub fn vpanic() requires false { unimplemented!() }
 #[verifier::external_body] pub fn child_at(c: &Children, k: usize) -> (r: Node) requires k < c.items@.len() ensures r == c.items@[k as int] { unimplemented!() }
 """
 
 INV = ("invariant verif_k <= verif_kids.items@.len(), verif_kids.items@ == node_children(&input), type_vec@.len() == verif_k, "
-       "forall|i: int| 0 <= i < verif_kids.items@.len() ==> rule_of(#[trigger] &verif_kids.items@[i]) is type_ || rule_of(&verif_kids.items@[i]) is open_ended_type, "
+       "forall|i: int| 0 <= i < verif_kids.items@.len() ==> rule_of(#[trigger] &verif_kids.items@[i]) is type_ || rule_of(&verif_kids.items@[i]) is open_ended_marker, "
+       "forall|i: int| 0 <= i < verif_kids.items@.len() && rule_of(#[trigger] &verif_kids.items@[i]) is open_ended_marker ==> i == verif_kids.items@.len() - 1, "
        "forall|i: int| 0 <= i < verif_k ==> rule_of(#[trigger] &verif_kids.items@[i]) is type_ && parsed_type(verif_kids.items@[i]) == Some(type_vec@[i]), "
        "decreases verif_kids.items@.len() - verif_k,")
 
@@ -34,6 +37,7 @@ def build(repo):
                                                                    "{ let child = child_at ( & verif_kids , verif_k ) ; verif_k += 1 ;", *bd["body"], "}"], count=1, why="for over the pest children -> indexed while"),
         Rule("R1", "Rule :: r#type", "Rule :: type_", why="raw identifier r#type -> type_"),
         Rule("R6", "Self :: r#type ( $n ) ?", "parse_type_of ( $n ) ?", why="sub-parser abstract"),
+        Rule("R8", "type_vec . remove ( 0 )", "vec_remove0 ( & mut type_vec )", why="Vec::remove with its panic precondition"),
         Rule("R8", "unreachable ! ( $$m )", "{ vpanic ( ) ; return Err ( VErr ) }", why="unreachable!: a panic -- must be excluded for every child the grammar delivers"),
         Rule("R3", "return Err ( new_err ( $$a ) )", "return Err ( VErr )", why="diagnostic text dropped"),
         Rule("R3", "return Err ( new_err ( $$a ) ) ;", "return Err ( VErr ) ;", why="diagnostic text dropped"),
@@ -42,21 +46,25 @@ def build(repo):
     gen = header(log, f"{FILE}: Parser::list_type") + prelude("parser.rs") + SPEC + f"""
 //@ OBL C16.list_type.total
 pub fn list_type(input: Node) -> (r: Result<ListType, VErr>)
-    // grammar: list_type = "[" type? ("," type)* ("," open_ended_type)? "]"
-    requires forall|i: int| 0 <= i < node_children(&input).len() ==> rule_of(#[trigger] &node_children(&input)[i]) is type_ || rule_of(&node_children(&input)[i]) is open_ended_type,
+    // grammar: list_type = "[" (type ("," type)*)? open_ended_marker? "]"
+    requires forall|i: int| 0 <= i < node_children(&input).len() ==> rule_of(#[trigger] &node_children(&input)[i]) is type_ || rule_of(&node_children(&input)[i]) is open_ended_marker,
+             forall|i: int| 0 <= i < node_children(&input).len() && rule_of(#[trigger] &node_children(&input)[i]) is open_ended_marker ==> i == node_children(&input).len() - 1,      // `...` comes last
     ensures
-        // `[A, B...]` is not a type of the language: a diagnostic (never a panic: the precondition of the panic is refuted for every child)
-        (exists|i: int| 0 <= i < node_children(&input).len() && rule_of(#[trigger] &node_children(&input)[i]) is open_ended_type) ==> r is Err,
-        // otherwise the fixed-shape list of the element types, in order
-        r is Ok ==> r->Ok_0 is Mixed && r->Ok_0->Mixed_0@.len() == node_children(&input).len()
-            && forall|i: int| 0 <= i < node_children(&input).len() ==> parsed_type(#[trigger] node_children(&input)[i]) == Some(r->Ok_0->Mixed_0@[i]),
+        // `...` closes the element types: behind exactly one it makes the growable list of that type; behind any other number it is a diagnostic
+        // (never a panic: the precondition of every panic is refuted for every child the grammar delivers)
+        (exists|i: int| 0 <= i < node_children(&input).len() && rule_of(#[trigger] &node_children(&input)[i]) is open_ended_marker && i != 1) ==> r is Err,
+        (r is Ok && r->Ok_0 is Open) ==> node_children(&input).len() >= 2 && rule_of(&node_children(&input)[0]) is type_ && rule_of(&node_children(&input)[1]) is open_ended_marker
+            && parsed_type(node_children(&input)[0]) == Some(*r->Ok_0->Open_0),
+        // without it: the fixed-shape list of the element types, in order
+        (r is Ok && r->Ok_0 is Mixed) ==> r->Ok_0->Mixed_0@.len() == node_children(&input).len()
+            && forall|i: int| 0 <= i < node_children(&input).len() ==> rule_of(#[trigger] &node_children(&input)[i]) is type_ && parsed_type(node_children(&input)[i]) == Some(r->Ok_0->Mixed_0@[i]),
 {{
 {render(b, 1)}
 }}
 }} // verus!
 fn main() {{}}
 """
-    return gen, [Obl("C16.list_type.total", ["C16", "C03"], fn="Parser::list_type", desc="list_type: for every child the grammar delivers (element types, and a trailing `T...`) a type or a diagnostic, never `unreachable!`; `[A, B...]` is a diagnostic; otherwise the element types in order")], log
+    return gen, [Obl("C16.list_type.total", ["C16", "C03"], fn="Parser::list_type", desc="list_type: for every child the grammar delivers (element types and a closing `...`) a type or a diagnostic, never a panic; `[T...]` is the growable list of T, `...` behind any other number of element types a diagnostic; otherwise the element types in order")], log
 
 
 UNITS = [VUnit("c16_list_type", ["C16", "C03"], "the builder of fixed-shape list types returns for every child the grammar delivers", build)]
